@@ -204,7 +204,7 @@ def gen_struct_case(g, cid, opts=None):
             if sc.existing_only and g.chance(0.6) and sf:
                 t.untouched = True
             else:
-                split = g.chance(0.35)
+                split = g.chance(0.35) and not opts.get("uniform")
                 t.ghost = dict(owned=k, ref=(g.mark() if split else k), split=split)
             tf.append(t)
     sc.sf, sc.tf = sf, tf
@@ -212,9 +212,10 @@ def gen_struct_case(g, cid, opts=None):
     for f in mapped:
         if f.desig != "expr":
             continue
-        cover = list(g.pick(COVERS)) + list(g.pick(EXTRA_EXISTING))
+        uniform = opts.get("uniform")
+        cover = ["map"] if uniform else list(g.pick(COVERS)) + list(g.pick(EXTRA_EXISTING))
         f.mis = [MI(nm, None, g.mark()) for nm in cover]
-        if g.chance(0.3):
+        if g.chance(0.3) and not uniform:
             # a more specific fallible instruction next to the infallible one
             base = g.pick([c for c in cover if "existing" not in c])   # member-level try_*_into_existing instructions do not exist (21 mapping names)
             mi = MI(FALLIBLE_NAME[base], None, g.mark())
@@ -227,7 +228,7 @@ def gen_struct_case(g, cid, opts=None):
         f.expr_form = r.choice(["tilde", "tilde", "at", "braced"])
     for f in sf:
         if f.desig == "ghost":
-            split = g.chance(0.35)
+            split = g.chance(0.35) and not opts.get("uniform")
             k = g.mark()
             f.ghost = dict(owned=k, ref=(g.mark() if split else k), split=split)
     # one fallible check (C07): `chk(~, id)?` on an i32 field that has no other expression
@@ -238,6 +239,8 @@ def gen_struct_case(g, cid, opts=None):
             f = r.choice(cands)
             f.chk = g.mark()
             sc.chk = f
+            if positional and s_shape == "named":
+                f.member_attr = f.t.name
     sc.name_T = "T"
     return sc
 
@@ -462,7 +465,7 @@ def render_module(sc, g, fallible, draws):
         convs.append(kind)
     # driver
     tag = f"c{sc.cid}{'f' if fallible else 'i'}"
-    D = ["pub fn run(log: &mut crate::rt::Log) {", f"    let mut r = crate::rt::Rng::new({sc.cid * 2 + (1 if fallible else 0) + 1000});", f"    for d in 0..{draws}usize {{"]
+    D = ["pub fn run(log: &mut crate::rt::Log) {", f"    let mut r = crate::rt::Rng::new({sc.cid + 1000});", f"    for d in 0..{draws}usize {{"]
     chk_bias = ""
     D.append("        let t: T = " + t_ctor(sc, [rng_call(t.ty) for t in sc.tf]) + ";")
     D.append("        let pre: T = " + t_ctor(sc, [rng_call(t.ty) for t in sc.tf]) + ";")
@@ -492,6 +495,16 @@ def render_module(sc, g, fallible, draws):
             want, src = "ref_ref_into_existing(&s, &pre)", "s"
         srcfmt = f'&format!("{{:?}}|pre={{:?}}", {src}, pre)' if "existing" in kind else f'&format!("{{:?}}", {src})'
         D.append(f'        log.ev("{tag}", "{name}", d, {srcfmt}, &crate::rt::guard(|| {call}), &format!("{{:?}}", {want}));')
+    unt = [t for t in sc.tf if t.untouched]
+    if unt:
+        for kind, recv in (("owned_into_existing", "s.clone()"), ("ref_into_existing", "(&s)")):
+            if kind in convs:
+                call = f"{recv}.try_into_existing(&mut o).ok();" if fallible else f"{recv}.into_existing(&mut o);"
+                tup_o = "(" + ", ".join(f"o.{t.name}.clone()" for t in unt) + ",)"
+                tup_p = "(" + ", ".join(f"pre.{t.name}.clone()" for t in unt) + ",)"
+                D.append(f'        {{ let mut o = pre.clone(); {call} log.ev("{tag}", "untouched_{("try_" if fallible else "") + kind}", d, "", &format!("{{:?}}", {tup_o}), &format!("{{:?}}", {tup_p})); }}')
+    if sc.chk is not None:
+        D.append(f'        log.ev("{tag}", "chk_inputs", d, "", &format!("{{}},{{}}", t.{sc.chk.t.name} % 5 == 0, s.{sc.chk.name} % 5 == 0), "{sc.chk.chk}");')
     D.append("    }")
     D.append("}")
     return "\n".join(L + D) + "\n", derive_src, convs
